@@ -100,6 +100,7 @@ func ModOps(full bool) []Op {
 		add("AddToolchainStmt", "go1.22.1")
 	}
 	add("DropToolchainStmt")
+	add("AddGodebug", "tlsprofile", "min=1.2") // a value that contains the separator again
 	for _, k := range []string{"panicnil", "asynctimerchan"} {
 		for _, v := range []string{"0", "1"} {
 			if full || v == "1" || k == "panicnil" {
@@ -198,6 +199,9 @@ func WorkOps(full bool) []Op {
 	add("DropGoStmt")
 	add("AddToolchainStmt", "go1.21.0")
 	add("DropToolchainStmt")
+	// values that contain the separator again, or nothing
+	add("AddGodebug", "tlsprofile", "min=1.2")
+	add("DropGodebug", "tlsprofile")
 	for _, k := range []string{"panicnil", "asynctimerchan"} {
 		add("AddGodebug", k, "1")
 		if full || k == "panicnil" {
